@@ -286,6 +286,8 @@ def _plant(draw, p):
 
 def shard_generated(acc, shard, nshards, n_pair, n_col, n_multi, n_hist):
     engine.hyp_run(acc, "pair", check_pair, gen.pattern_target(6, 12), n_pair, shard)
+    # long targets with short patterns: sizes no exhaustive sweep reaches, oracle still cheap
+    engine.hyp_run(acc, "pair", check_pair, gen.planted(4, 24), max(10, n_pair // 5), shard)
     engine.hyp_run(acc, "coloured", check_coloured, coloured_cases(), n_col, shard)
     engine.hyp_run(acc, "multi", check_multi, multi_cases(), n_multi, shard)
     engine.hyp_run(acc, "history", check_history, history_cases(), n_hist, shard)
